@@ -338,3 +338,76 @@ def c09(sc, io):
                     res.append(("C09-applied-again", "fragment prices of %s changed in an update without a new removal" % o["o"], det))
             prev[key] = {"frags": fr}
     return res
+
+
+def c07(sc, io):
+    res = []
+    cfg = sc["config"]
+    lat = {"Place": int(round(cfg["place_latency"] * 1000)), "Cancel": int(round(cfg["cancel_latency"] * 1000)),
+           "Update": int(round(cfg["update_latency"] * 1000)), "Replace": int(round(cfg["replace_latency"] * 1000))}
+    mindex = {m["id"]: i for i, m in enumerate(sc["markets"])}
+    # clock seen by every callback = publish time of the update being processed
+    for s, cb, mid, pt, now in io["calls"]:
+        if pt != now:
+            res.append(("C07-clock", "callback %s of strategy %s saw utcnow()=%s while processing the update published at %s" % (cb, s, now, pt), {"market": mid}))
+            break
+    snaps = snapshots(sc, io)
+    # per market: list of (update idx, pt, snapshot) in processing order
+    per_market = {}
+    for mi, u, snap in snaps:
+        per_market.setdefault(mi, []).append((u, snap["pt"], snap))
+    for p in io["packages"]:
+        mi = mindex[p["market"]]
+        delay = lat[p["kind"]] + (1000 * p["bet_delay"] if p["kind"] in ("Place", "Replace") else 0)
+        seq = per_market.get(mi, [])
+        exec_at = next(((u, pt) for u, pt, _ in seq if pt - p["created"] > delay), None)
+        for name in p["orders"]:
+            hist = [(u, pt, next((o for o in snap["orders"] if o["o"] == name), None)) for u, pt, snap in seq]
+            hist = [(u, pt, o) for u, pt, o in hist if o is not None and pt > p["created"]]
+            det = {"package": p, "expected_execution": exec_at, "delay_ms": delay}
+            if p["kind"] == "Place":
+                for u, pt, o in hist:
+                    due = exec_at is not None and pt >= exec_at[1]
+                    if not due:
+                        if o["status"] != "Pending" and o["status"] != "Violation":
+                            res.append(("C07-early", "%s was acknowledged (%s) at %s, before request time %s + %s ms" % (name, o["status"], pt, p["created"], delay), det)); break
+                        if o["frags"]:
+                            res.append(("C07-early", "%s has fills at %s while still inside its latency/bet-delay window" % (name, pt), det)); break
+                    elif pt == exec_at[1]:
+                        if o["status"] == "Violation":
+                            pass      # marked VIOLATION by a refused request while pending (C02's finding): never sent
+                        elif o["status"] == "Pending":
+                            res.append(("C07-late", "%s is still pending at %s, the first update more than %s ms after the request at %s" % (name, pt, delay, p["created"]), det))
+                        elif o["placed"] != pt:
+                            res.append(("C07-timestamp", "%s date_time_placed=%s but it took effect at the update published at %s" % (name, o["placed"], pt), det))
+                        break
+            else:
+                transient = {"Cancel": "Cancelling", "Update": "Updating", "Replace": "Replacing"}[p["kind"]]
+                for u, pt, o in hist:
+                    due = exec_at is not None and pt >= exec_at[1]
+                    if not due:
+                        if o["status"] not in (transient, "Violation") and not o["complete"]:
+                            res.append(("C07-early", "%s left %s (now %s) at %s, before request time %s + %s ms" % (name, transient, o["status"], pt, p["created"], delay), det)); break
+                    elif pt == exec_at[1]:
+                        if o["status"] == transient:
+                            res.append(("C07-late", "%s is still %s at %s, the first update more than %s ms after the request" % (name, transient, pt, delay), det))
+                        break
+    # timestamps of fragments: never before the time at which they could have happened
+    prev_pt = {}
+    for mi, u, snap in snaps:
+        ups = sc["markets"][mi]["updates"]
+        for o in snap["orders"]:
+            if o["placed"] is None:
+                continue
+            for f in o["frags"]:
+                if f[0] == 0:
+                    continue
+                if f[0] < o["placed"]:
+                    # matched on arrival: must be the book immediately before the executing update
+                    k = next((i for i, x in enumerate(ups) if x["pt"] == o["placed"]), None)
+                    if k is None or k == 0 or ups[k - 1]["pt"] != f[0]:
+                        res.append(("C07-state-used", "%s was matched on arrival against a book published at %s, not the one in force immediately before the executing update %s" % (o["o"], f[0], o["placed"]), {"order": o["o"]}))
+                    else:
+                        res.append(("C07-fragment-stamped-with-previous-book", "the arrival fragment of %s is stamped %s, earlier than the time it took effect (%s)" % (o["o"], f[0], o["placed"]), {"order": o["o"], "frag": f, "created": o["created"], "placed": o["placed"]}))
+                    break
+    return res
